@@ -113,7 +113,7 @@ type TagF struct {
 	Qual     bool     // Go type is qualified by an imported package
 	Ident    []string // named Go type split on "_"
 	IsMap    bool
-	Wrapped  bool // field lives in a oneof wrapper struct
+	Wrapped  bool   // field lives in a oneof wrapper struct
 	BadExtra string // unrecognised tag words (must be empty)
 }
 
